@@ -71,11 +71,13 @@ type Run struct {
 	prop    string
 	sitesHit map[string]bool
 	needs   map[string]bool
+	kindOrd map[string]map[ssa.Instruction]int
 }
 
 type Outcome struct {
 	st   *State
 	rets []*Val
+	fr   *Frame
 }
 
 const maxPaths = 2000
@@ -133,7 +135,7 @@ func (e *Engine) inRepo(fn *ssa.Function) bool {
 
 func newRun(e *Engine, fn *ssa.Function, ct *Contract) *Run {
 	return &Run{eng: e, fn: fn, ct: ct, name: fnName(fn), declSet: map[string]bool{}, heap0: map[string]string{}, ghost0: map[string]string{},
-		assumed: map[string]bool{}, noteSet: map[string]bool{}, safeN: map[string]int{}, sitesHit: map[string]bool{}, needs: map[string]bool{}}
+		assumed: map[string]bool{}, noteSet: map[string]bool{}, safeN: map[string]int{}, sitesHit: map[string]bool{}, needs: map[string]bool{}, kindOrd: map[string]map[ssa.Instruction]int{}}
 }
 
 // emit records a proof obligation: pc => goal.
@@ -147,10 +149,63 @@ func (r *Run) safety(fr *Frame, st *State, kind string, instr ssa.Instruction, g
 	if goal == "true" {
 		return
 	}
-	name := fmt.Sprintf("safe:%s@%s", kind, r.siteLabel(fr, instr))
+	name := fmt.Sprintf("safe:%s@%s", kind, r.kindLabel(kind, instr))
 	props := r.ct.Props
 	r.emit(st, name, "safety", props, goal)
 	st.assume(goal)
+}
+
+// kindLabel numbers the instructions that can raise this kind of obligation within their function,
+// in source order, so that unrelated edits elsewhere in the function do not rename obligations.
+func (r *Run) kindLabel(kind string, instr ssa.Instruction) string {
+	fn := instr.Parent()
+	key := kind + "|" + fnName(fn)
+	m, ok := r.kindOrd[key]
+	if !ok {
+		m = map[ssa.Instruction]int{}
+		n := 0
+		for _, b := range fn.Blocks {
+			for _, in := range b.Instrs {
+				if safetyKinds(in)[kind] {
+					m[in] = n
+					n++
+				}
+			}
+		}
+		r.kindOrd[key] = m
+	}
+	lab := fmt.Sprintf("#%d", m[instr])
+	if fn != r.fn {
+		return fnName(fn) + lab
+	}
+	return lab
+}
+
+func safetyKinds(in ssa.Instruction) map[string]bool {
+	switch x := in.(type) {
+	case *ssa.Slice:
+		return map[string]bool{"slice": true}
+	case *ssa.IndexAddr, *ssa.Index:
+		return map[string]bool{"index": true}
+	case *ssa.Lookup:
+		return map[string]bool{"index": true}
+	case *ssa.BinOp:
+		return map[string]bool{"overflow": true, "div": true}
+	case *ssa.UnOp:
+		_ = x
+		return map[string]bool{"nil": true, "overflow": true}
+	case *ssa.FieldAddr, *ssa.Store:
+		return map[string]bool{"nil": true}
+	case *ssa.MakeSlice:
+		return map[string]bool{"makeslice": true}
+	case *ssa.TypeAssert:
+		return map[string]bool{"typeassert": true}
+	case *ssa.MapUpdate:
+		return map[string]bool{"nilmap": true}
+	case *ssa.Panic:
+		return map[string]bool{"panic": true}
+	}
+	return nil
 }
 
 // siteLabel gives a stable label for an instruction: function, kind ordinal in source order.
